@@ -4,7 +4,8 @@ set -u
 patch=$(readlink -f "$1"); shift
 [ -z "$(git -C /repo status --porcelain)" ] || { echo "/repo not clean"; exit 2; }
 git -C /repo apply "$patch" || exit 2
-trap 'git -C /repo checkout -- .' EXIT
+ev=$(mktemp -d /tmp/ev.XXXXXX); cp -a /verif/evidence/. $ev/
+trap 'git -C /repo checkout -- .; cp -a $ev/. /verif/evidence/; rm -rf $ev' EXIT
 cd /verif
 for p in "$@"; do
   out=$(./check "$p" --tier "${TIER:-quick}" 2>&1 | grep -v "WARNING conda"); rc=$?
